@@ -95,3 +95,6 @@ Proof.
     change (E.e_value (pd d0)) with (pv (x_value d0)). rewrite r_value_pv. reflexivity.
   - apply IH; assumption.
 Qed.
+
+Print Assumptions eval_sem_level.
+Print Assumptions xlookup_pos.
